@@ -156,6 +156,31 @@ impl GrammarConfig {
 
     /// Updates the cfg member after the grammar has been checked and transformed
     pub fn update_cfg(&mut self, cfg: Cfg) {
+        // The token numbers in the scanner configurations (skip lists and scanner transitions)
+        // refer to the order of the terminals in the old grammar. A transformation can change
+        // this order, so we renumber them against the new grammar.
+        let old_terminals = self.cfg.get_ordered_terminals_owned();
+        let new_terminals = cfg.get_ordered_terminals_owned();
+        let renumber = |index: TerminalIndex| -> TerminalIndex {
+            (index as usize)
+                .checked_sub(parol_runtime::lexer::FIRST_USER_TOKEN as usize)
+                .and_then(|i| old_terminals.get(i))
+                .and_then(|(t, k, l, _)| {
+                    new_terminals
+                        .iter()
+                        .position(|(t0, k0, l0, _)| t == t0 && k.behaves_like(*k0) && l == l0)
+                })
+                .map_or(index, |i| {
+                    i as TerminalIndex + parol_runtime::lexer::FIRST_USER_TOKEN
+                })
+        };
+        for sc in &mut self.scanner_configurations {
+            sc.skip_tokens.iter_mut().for_each(|t| *t = renumber(*t));
+            sc.skip_tokens.sort();
+            sc.skip_tokens.dedup();
+            sc.transitions.iter_mut().for_each(|t| t.0 = renumber(t.0));
+            sc.transitions.sort_by_key(|t| t.0);
+        }
         self.cfg = cfg;
     }
 
